@@ -181,3 +181,9 @@ def check_C11(tier):
         "for which at least two back-ends returned an unflagged answer (i.e. a comparison actually took place)."
     )
     return chk.finish()
+
+
+def check_C12(tier):
+    from drivers import present
+
+    return present.run(Check("C12", tier), tier)
